@@ -9,7 +9,7 @@ From Coq Require Import ZArith QArith List Bool.
 From VL Require Import Prelude.Sx Prelude.PyDict Prelude.GDict Model.GetNBest Model.Divisor Model.HighestAverages
      Model.Convert Model.Condorcet
      Proofs.Dict_proofs Proofs.HA_proofs Proofs.Divisor_proofs Proofs.Mono_proofs Proofs.Additive_proofs
-     Proofs.Convert_proofs.
+     Proofs.Convert_proofs Proofs.CopelandMono_proofs.
 Import ListNotations.
 Open Scope Z_scope.
 
@@ -104,15 +104,22 @@ Proof.
   intros top. apply fixed_top_nonincreasing.
 Qed.
 
-(* Pairwise rules: full statements (decided per explored case by the relational checker of the
-   check; not yet theorems - listed as partial in the evidence).  [raises v v' w]: the pairwise
-   counts change only in favour of w. *)
-Definition raises (v v' : pvotes) (w : C) : Prop :=
-  candidates v' = candidates v /\
-  (forall x, pget0 v (w, x) <= pget0 v' (w, x) /\ pget0 v' (x, w) <= pget0 v (x, w)) /\
-  (forall a b, a <> w -> b <> w -> pget0 v' (a, b) = pget0 v (a, b)).
-Definition C17_copeland_full_statement : Prop :=
-  forall v v' w so, raises v v' w -> copeland so v 1 = [Cand w] -> copeland so v' 1 = [Cand w].
+(* Copeland: if the pairwise counts change only in favour of w ([raises v v' w], Proofs/CopelandMono_proofs.v:
+   same candidates, w's counts against the others do not drop, theirs against w do not rise, contests among the
+   others untouched - what moving w upwards on a ballot, or adding a bullet vote for w, does), a sole winner by
+   Copeland scores stays the sole winner, with or without second-order tie-breaking afterwards *)
+Theorem C17_copeland : forall (v v' : pvotes) (w : C) (so : bool),
+  NoDup (map fst v) -> NoDup (map fst v') ->
+  (forall p n, In (p, n) v -> 0 <= n) -> (forall p n, In (p, n) v' -> 0 <= n) ->
+  raises v v' w ->
+  copeland false v 1 = [Cand w] -> copeland so v' 1 = [Cand w].
+Proof.
+  intros v v' w so Hnd Hnd' Hnn Hnn' Hr H. rewrite copeland_raw_is_first_order in H.
+  exact (copeland_monotone v v' w Hnd Hnd' Hnn Hnn' Hr so H).
+Qed.
+
+(* minimax and Schulze: full statements (decided per explored case by the relational checker of the check;
+   not yet theorems - listed as partial in the evidence) *)
 Definition C17_minimax_full_statement : Prop :=
   forall v v' w sc, raises v v' w -> minimax sc v 1 = [Cand w] -> minimax sc v' 1 = [Cand w].
 Definition C17_schulze_full_statement : Prop :=
@@ -134,4 +141,5 @@ Print Assumptions C17_additive.
 Print Assumptions C17_approval.
 Print Assumptions C17_plurality.
 Print Assumptions C17_positional.
+Print Assumptions C17_copeland.
 Print Assumptions C17_scorers_nonincreasing.
